@@ -25,7 +25,7 @@ inductive Scheme | x509 | signingAuthority
   deriving DecidableEq, Repr, FromJson, ToJson
 
 /-- verification level of the applicable statement: authenticity is enforced by `strict` and
-`permissive` and logged by `audit` -/
+`permissive` and logged by `audit` (or by an override, `Stmt.authLog`) -/
 inductive Level | strict | permissive | audit
   deriving DecidableEq, Repr, FromJson, ToJson
 
@@ -42,6 +42,7 @@ structure Stmt where
   scopes : List Text
   trustStores : List Text  -- "type:name" values, as written
   level : Level
+  authLog : Bool           -- signatureVerification.override sets authenticity to `log`
   deriving DecidableEq, Repr, FromJson, ToJson
 
 structure Input where
@@ -50,6 +51,10 @@ structure Input where
   statements : List Stmt
   repo : Text              -- artifact path (reference without "@digest")
   world : List Store
+  identityOk : Bool        -- verdict of the trusted-identity check that shares the authenticity result:
+                           -- natively `true` (trustedIdentities is "*"); with an installed verification
+                           -- plugin of capability TRUSTED_IDENTITY, the plugin's answer
+  plugin : String          -- annotation: which verification plugin the signature names ("none", ...)
   backend : String         -- annotation: "mem" (instrumented store) | "dir" (real x509TrustStore)
   format : String          -- annotation: "jws" | "cose"
   kind : String            -- annotation: "oci" (Verify) | "blob" (VerifyBlob; the blob document's
@@ -81,7 +86,11 @@ structure Obs where
 
 /-! ### the world -/
 
-/-- load result of a store: `none` = the load fails (a store that does not exist fails too) -/
+/-- load result of a store: `none` = the load fails (a store that does not exist fails too).
+The world holds NAMED stores: (type, name) with a name that is a plain file name. A `trustStores`
+value whose name part is a path ("../tsa/x", "x/", "./x") names no store, however the file
+system would resolve it; a store directory that is a symbolic link, or that holds a symbolic
+link, is a store that does not load (the harness writes such worlds and says `ok := false`). -/
 abbrev World := Text → Text → Option (List CertId)
 
 def lookup : List Store → World
@@ -157,13 +166,20 @@ def applicable (stmts : List Stmt) (repo : Text) : Option Stmt :=
 
 /-! ### the scenario -/
 
+/-- the action of the authenticity validation is `log` (level audit, or overridden) -/
+def Stmt.logged (s : Stmt) : Bool := s.level == .audit || s.authLog
+
+/-- The authenticity ValidationResult carries the trust store check and, written into the same
+result afterwards, the trusted-identity check (native, or the verification plugin's verdict).
+A trust store failure that is enforced returns before anything else runs; a logged one lets the
+workflow go on, and nothing that runs later may erase it. -/
 def run (i : Input) : Obs :=
   match applicable i.statements i.repo with
   | none => { result := .noPolicy, calls := [], accepted := false }
   | some s =>
     let r := authenticity (lookup i.world) i.scheme i.chain s.trustStores
-    { result := if r.1 then .pass else .fail, calls := r.2,
-      accepted := r.1 || s.level == .audit }
+    { result := if r.1 && i.identityOk then .pass else .fail, calls := r.2,
+      accepted := (r.1 || s.logged) && (i.identityOk || s.logged) }
 
 /-! ### the property over observables
 
@@ -217,8 +233,11 @@ def clauses (i : Input) (o : Obs) : Clauses :=
       ("malformed_store_value_fails", wellFormed || o.result != .pass),
       -- converse: everything listed loads and one of them holds a chain certificate -> pass
       ("pass_if_all_listed_load_and_one_confers",
-        !(wellFormed && wanted.all (loadable w want) && wanted.any (confers w want i.chain)) ||
+        !(wellFormed && wanted.all (loadable w want) && wanted.any (confers w want i.chain) && i.identityOk) ||
           o.result == .pass),
+      -- the identity verdict shares the result: a failed identity check fails it, a successful one
+      -- (native or by a plugin) never turns a trust store failure into a pass (clauses above)
+      ("identity_failure_fails", i.identityOk || o.result != .pass),
       -- the store sees only (required type, listed name): no other type, no unlisted store
       ("only_listed_stores_of_required_type_are_loaded",
         o.calls.all (fun c => c.ty == want && wanted.contains c.name)),
@@ -231,7 +250,7 @@ def clauses (i : Input) (o : Obs) : Clauses :=
         o.result != .pass || wanted.all (names.contains ·)),
       -- enforcement: without authenticity the signature is accepted only where the level logs it
       ("acceptance_follows_authenticity_and_level",
-        o.accepted == (o.result == .pass || (o.result == .fail && s.level == .audit))) ]
+        o.accepted == (o.result == .pass || (o.result == .fail && s.logged))) ]
 
 def Holds (i : Input) (o : Obs) : Bool := (clauses i o).holds
 
